@@ -226,8 +226,32 @@ func runC13(c *eng.Ctx) {
 		if len(subs) != 1 {
 			c.Unresolved("a.subscribe call in SubscribeInternal")
 		} else {
-			g, w := eng.GuardedBy(fn, subs[0].(ssa.Instruction), append(append([]eng.Edge{}, onLeader...), ng...))
-			c.Check(g && len(onLeader) > 0 && len(ng) > 0, "a consumer-group subscription is only set up on the partition leader", c.Pos(subs[0].(ssa.Instruction)), "a.subscribe is reached only when this server leads the partition or the request carries no group", "a group member can subscribe on a follower (path "+w.String()+"): the follower's own group registry is empty, so no epoch check and no cancellation happens there and two members of the group consume the partition at the same time")
+			// one of the two, whichever way a joined condition (`case notLeader && group != "":`) came to be false
+			groupV := func(v ssa.Value) bool {
+				if ph, isPhi := v.(*ssa.Phi); isPhi {
+					for _, pe := range ph.Edges {
+						if eng.LoadNamed("GroupId", nil)(pe) {
+							return true
+						}
+					}
+				}
+				return eng.LoadNamed("GroupId", nil)(v)
+			}
+			leaderV := eng.Call(0, "server.partition.GetLeader")
+			either := eng.EdgesWhere(fn, func(a eng.AtomView) bool {
+				return a.RelHolds(leaderV, eng.LoadNamed("ServerID", nil), eng.EQ) || a.RelHolds(groupV, eng.StrConst(""), eng.EQ)
+			})
+			compared := func(x, y eng.VM) bool {
+				found := false
+				eng.Instrs(fn, func(in ssa.Instruction) {
+					if bo, isB := in.(*ssa.BinOp); isB && (bo.Op == token.EQL || bo.Op == token.NEQ) && (x(bo.X) && y(bo.Y) || x(bo.Y) && y(bo.X)) {
+						found = true
+					}
+				})
+				return found
+			}
+			g, w := eng.GuardedBy(fn, subs[0].(ssa.Instruction), append(append(append([]eng.Edge{}, onLeader...), ng...), either...))
+			c.Check(g && (len(onLeader) > 0 || compared(leaderV, eng.LoadNamed("ServerID", nil))) && (len(ng) > 0 || compared(groupV, eng.StrConst(""))), "a consumer-group subscription is only set up on the partition leader", c.Pos(subs[0].(ssa.Instruction)), "a.subscribe is reached only when this server leads the partition or the request carries no group", "a group member can subscribe on a follower (path "+w.String()+"): the follower's own group registry is empty, so no epoch check and no cancellation happens there and two members of the group consume the partition at the same time")
 		}
 	}
 	c.Floor(1)
